@@ -23,13 +23,13 @@ CLAIMS = {
  'C09': ('proof', 'steal_permitted (written from the property) ==> data() is the source\'s old data(), no element operation (ONLY_KINDS(0)), no allocator traffic, source default-state; otherwise element-wise; same-capacity and cross-capacity (pair_lt/pair_gt) move assignment, move construction, swap.', '5.9'),
  'C15': ('proof', 'Forward-iterator protocol (never dereferenced/advanced at or beyond last) as preconditions of the iterator model, range length without truncation, k-th element from k-th position; single-pass (input iterator) loops are not under contract yet.', '5.15'),
  'C18': ('proof', 'noexcept truthfulness only: every extracted function whose compiler-evaluated exception specification is noexcept carries the obligation that no exception leaves it (r8); the documented-condition grid (b) and trait facts (c) are not built.', '5.18'),
+ 'C17': ('proof', 'The header is extracted under -std=c++11/14/17/20/23 by the same compiler front end; per function, identical extracted text (with everything it inlines) shares the C++20 proof, differing text is proved against the SAME contract - same contract under every standard is the statement of the property. GCC and code generation are out of reach.', '5.17'),
  'C01': ('proof', 'std::vector post-state (size, returned position, prefix preserved, new elements equal the argument) as ensures clauses over Skolemised cells, per operation under contract.', '5.1'),
 }
 
 NA = {
  'C08': 'not yet claimed: CONSTEVAL=1 configuration not yet proved',
  'C16': 'not yet claimed: comparison / non-member contracts not written yet',
- 'C17': 'not yet claimed: only -std=c++20 is extracted so far',
  'C20': 'behaviour of a Python/natvis script inside a debugger: no contract on the C++ functions can express or decide it (DESIGN.md 5.20)',
 }
 
